@@ -50,11 +50,13 @@ reg("C20", harness="c20_zero", level="exploration", deadline=(120, 900),
     technique="bounded-exhaustive enumeration of (variant x length x placement/alignment x non-zero position x value) with guard pages",
     level_text="Complete product over every ISA variant (5 direct symbols + the dispatcher under 6 simulated CPU levels), every length 0..600 "
                "(thorough 0..1100), 65 placements, every position of a single non-zero byte with 3 (thorough: up to 255) values; the region is "
-               "flush against inaccessible pages so an out-of-range read faults, and neighbours are non-zero.",
-    level_note="the kernels are branch-free reductions over the region; lengths beyond N and multi-byte patterns are not enumerated",
+               "flush against inaccessible pages so an out-of-range read faults, and neighbours are non-zero. Dense families on the same "
+               "(variant, length, placement) grid: zeros + non-zero suffix, non-zero prefix + zeros, sliding 64- and 128-byte non-zero windows, "
+               "every start, fill ff/01/80 (every byte lane of a vector block non-zero at once).",
+    level_note="lengths beyond N and multi-byte patterns other than runs (suffix/prefix/window) are not enumerated",
     runs=[dict(flavour="sim")],
-    rule="case = (implementation, len, placement); for each: all-zero must give 0, and a single non-zero byte at EVERY offset with each value "
-         "must give non-zero; distinct_nontrivial counts distinct (implementation, len) pairs completed; evaluations counts calls.")
+    rule="case = (implementation, len, placement); for each: all-zero must give 0, a single non-zero byte at EVERY offset with each value "
+         "and every member of the dense run families must give non-zero, with no access outside the region; distinct_nontrivial counts distinct (implementation, len) pairs completed; evaluations counts calls.")
 
 
 reg("C04", harness="c04_crc", level="exploration", deadline=(240, 1500),
@@ -234,7 +236,8 @@ reg("C11", harness="c11_checksum", level="fault_enumeration", deadline=(300, 240
 
 reg("C19", harness="c19_headers", level="model_checking", deadline=(300, 1500), extra_src=["ref/ref_inflate.c"], engine="explore",
     technique="full field-value product for the writers against an independent RFC producer + explicit-state exploration of the real header reader over all input chunkings and buffer-growth schedules",
-    level_text="Writers: the complete product of gzip header fields (18 432 combinations) x 5 output sizes around the required size and all zlib "
+    level_text="Writers: the complete product of gzip header fields (18 432 combinations) x 5 output sizes around the required size (and, for the reader-side capacity fields, exact / zero / roomy / huge values, "
+               "which the writer must ignore) and all zlib "
                "header field combinations are compared byte for byte with an independent RFC 1952/1950 producer (itself cross-checked with zlib's "
                "inflateGetHeader); too-small output must return the required size and leave stream and buffer untouched. Readers: for every "
                "header of a field product the state graph of the real isal_read_gzip_header under ALL chunk sequences from {0,1,2,rest} and 7 "
@@ -250,9 +253,11 @@ reg("C18", harness="c18_huff", level="exploration", deadline=(300, 1800), extra_
     technique="bounded-exhaustive enumeration of histograms (all weight assignments over symbol subsets, depth-breaker families, collector outputs) with independent re-parse of the stored header and entry-by-entry decode of the packed tables; set_hufftables tried at every state of explored level-0 graphs",
     level_text="For 12 symbol subsets mixing literal/EOB/length/distance positions ALL 8^5 (8^6) weight assignments from {0,1,2,2^10,2^20,2^30,2^43,"
                "2^44-1}, Fibonacci and power-of-two prefixes (17..40 lit/len x 16..30 distance symbols), constants, single symbols and histograms "
-               "from every collector variant on SHAPES: both builders must succeed; the stored dynamic header is parsed by the independent decoder "
+               "from every collector variant on SHAPES, and the asymmetric family (each of the 30 distance symbols x chosen length symbols x a "
+               "literal alone at the bottom of a chain of narrow symbols, everything else heavy): both builders must succeed; the stored dynamic header is parsed by the independent decoder "
                "to complete codes <= 15 bits; every one of the 257+256+30(+dist table) packed entries, emitted as the encoder emits it, decodes to "
-               "its symbol; worst-case payloads and the source data round-trip at level 0 (all flush modes, 3 kernels). Installing a table is "
+               "its symbol; worst-case payloads (incl. the widest literal directly before the match with the widest length and distance codes, "
+               "derived from the parsed header, both parities) and the source data round-trip at level 0 (all flush modes, 3 kernels). Installing a table is "
                "attempted at every state of level-0 deflate graphs: accepted iff no block is open, refusals change nothing.",
     level_note="histograms outside the weight alphabet/subsets are not enumerated; entry emission re-states igzip/huffman.h getters; trusted: ref_inflate header parser.",
     runs=[dict(flavour="sim", part="weights"), dict(flavour="sim", part="shapes"), dict(flavour="sim", part="install")],
